@@ -33,6 +33,7 @@ KnownShapes == (v = "" /\ b = "") =>
     /\ Defect("MATCH (a:GraphNode {{GraphID: $graphId, NodeID: $nodeA}}) -[r:{kind}]- (b) RETURN r", {"graphId", "nodeA"}) = "unexpanded template fragment"
     /\ Defect("MATCH (a {GraphID: $graphId}) -[r:has]- (b) SET r+= { x: 'y' } RETURN properties(s)", {"graphId"}) = "variable referenced but never bound"
     /\ Defect("MATCH (a {GraphID: $graphId, NodeID: $nodeA}) RETURN a", {"graphId"}) = "parameter named but not supplied"
+    /\ Defect("MATCH(n:GraphNode:NetworkNode {GraphID: $graphId }) WHERE  RETURN collect(n.NodeID) as candidate_ids", {"graphId"}) = "empty clause"
     /\ Defect("with 'match(n:GraphNode {GraphID: \"g\\\\\\\\\"}) return n' as query CALL apoc.export.graphml.query(query, null, {stream: true}) YIELD data RETURN data", {}) = ""
     /\ Defect("with 'match(n:GraphNode {GraphID: \"g\\\\\"}) return n' as query CALL apoc.export.graphml.query(query, null, {stream: true}) YIELD data RETURN data", {}) = "nested statement: unterminated literal"
     /\ Defect("MATCH (n) WHERE size([(n) -[:has]- (:Component {GraphID: $graphId, Type: \"SharedNIC\" , }) | n.NodeID])>=1 RETURN n", {"graphId"}) = "dangling separator"
